@@ -291,6 +291,8 @@ def jobs(tier, seed):
 
     out = []
     for (ib, bb, ways) in GEOS:
+        if tier == "quick" and (ib, bb, ways) in ((1, 0, 2), (1, 1, 2)):
+            continue  # the two largest geometries (thousands of paths each) are thorough-tier
         for repl in ("lru", "plru"):
             if repl == "plru" and ways == 1 and (ib, bb) != (0, 0):
                 continue
